@@ -109,18 +109,20 @@ Qed.
 Print Assumptions C19_429_delay.
 
 (* 4. A readable 200 answer is judged by the class of its body and the mode only.
-   What the library does was determined experimentally (harness, TestVerif_C19
-   `library` cases): sigs.k8s.io/json UnmarshalStrict returns err = nil plus strict
-   errors for unknown and for duplicate fields (last value wins), err <> nil for
-   text that is not a JSON object of the right shape. *)
+   What the library does was determined experimentally (the harness re-checks
+   every body text of every case against it): sigs.k8s.io/json UnmarshalStrict
+   returns err = nil plus strict errors for unknown and for duplicate fields
+   (last value wins); err <> nil for text that is not a JSON object of the right
+   shape /\ for a well-formed document followed by anything but white space
+   (more text, a second document, a stray brace) - it decodes the whole text. *)
 Theorem C19_strict_loose : forall cfg sc c0 evs c sp r sent o,
   get_spec sc c = Some sp -> cs_reply sp = Reply r -> r_status r = 200 -> r_readfail r = false ->
   st_calls (run_schedule cfg sc (init c0) evs) c = PDone sent o ->
   match b_class (r_body r) with
-  | BValid => o = OkBody (r_body r)
+  | BValid | BValidTrailingSpace => o = OkBody (r_body r)
   | BUnknownField | BDuplicateField | BUnknownAndDuplicate =>
       if cfg_strict cfg then o = Err else o = OkBody (r_body r)
-  | BInvalidJson => o = Err
+  | BInvalidJson | BTrailingGarbage | BTwoDocuments | BStrayBrace => o = Err
   end.
 Proof.
   intros cfg sc c0 evs c sp r sent o Hsp Hr H200 Hrf H.
@@ -129,41 +131,41 @@ Proof.
 Qed.
 Print Assumptions C19_strict_loose.
 
-(* the same rule applies to a body served from the cache on 304/412 *)
-Theorem C19_strict_loose_cached : forall cfg sc c0 evs c sp r sent b,
-  get_spec sc c = Some sp -> cs_reply sp = Reply r -> (r_status r = 304 \/ r_status r = 412) ->
-  st_calls (run_schedule cfg sc (init c0) evs) c = PDone sent (OkBody b) ->
-  b_class b = BValid \/ (cfg_strict cfg = false /\ b_class b <> BInvalidJson).
-Proof.
-  intros cfg sc c0 evs c sp r sent b Hsp Hr H34 H.
-  apply is_304_412_true in H34.
-  destruct (served_from_cache cfg sc c0 evs c sp r sent b Hsp Hr H34 H) as [_ [_ [Hd _]]].
-  unfold decode in Hd. destruct (b_class b); destruct (cfg_strict cfg); try discriminate Hd;
-    try (left; reflexivity); right; split; try reflexivity; discriminate.
-Qed.
-Print Assumptions C19_strict_loose_cached.
-
-(* Whatever the status, the schedule and the origin of the body (this response
-   or the ETag cache): a call never succeeds with a value decoded from text the
-   mode rejects - in strict mode never from a body with unknown or duplicate
-   fields (the constant `accepted_body_ok` is the clause
-   strict-invalid-accepted-on-replay of the correspondence check). *)
+(* Whatever the status, the schedule and the origin of the body (this response,
+   or the ETag cache on 304/412): a call never succeeds with a value decoded
+   from an undecodable text (any mode), nor - in strict mode - from a body with
+   unknown or duplicate fields.  `decodable_ok` and `accepted_body_ok` are the
+   clauses undecodable-body-accepted and strict-invalid-accepted-on-replay of
+   the correspondence check. *)
 Theorem C19_no_rejected_body_accepted : forall cfg sc c0 evs c sent b,
   st_calls (run_schedule cfg sc (init c0) evs) c = PDone sent (OkBody b) ->
-  accepted_body_ok cfg (OkBody b) = true /\
-  b_class b <> BInvalidJson /\
-  (cfg_strict cfg = true -> b_class b = BValid).
+  decodable_ok (OkBody b) = true /\ accepted_body_ok cfg (OkBody b) = true /\
+  undecodable (b_class b) = false /\
+  (cfg_strict cfg = true -> has_strict_errors (b_class b) = false).
 Proof.
   intros cfg sc c0 evs c sent b H.
   destruct (done_moment cfg sc c0 evs c sent _ H) as [evs1 [evs2 [sp [_ [_ [_ Hf]]]]]].
   destruct (finish_ok_inv _ _ _ _ _ _ _ Hf) as [r [_ [_ [_ [_ [_ Hd]]]]]].
   pose proof (decode_acceptable cfg b b Hd) as Ha.
-  split; [exact Ha|]. unfold body_acceptable in Ha.
-  split.
-  - intro E. rewrite E in Ha. discriminate Ha.
-  - intro Hs. rewrite Hs in Ha. destruct (b_class b); try discriminate Ha. reflexivity.
+  assert (Hu : undecodable (b_class b) = false).
+  { unfold body_acceptable in Ha. destruct (undecodable (b_class b)); [discriminate Ha|reflexivity]. }
+  split; [simpl; rewrite Hu; reflexivity|]. split; [exact Ha|]. split; [exact Hu|].
+  intro Hs. unfold body_acceptable in Ha. rewrite Hu, Hs in Ha. simpl in Ha.
+  destruct (has_strict_errors (b_class b)); [discriminate Ha|reflexivity].
 Qed.
 Print Assumptions C19_no_rejected_body_accepted.
+
+(* in particular for a body served from the cache on 304/412 *)
+Theorem C19_strict_loose_cached : forall cfg sc c0 evs c sp r sent b,
+  get_spec sc c = Some sp -> cs_reply sp = Reply r -> (r_status r = 304 \/ r_status r = 412) ->
+  st_calls (run_schedule cfg sc (init c0) evs) c = PDone sent (OkBody b) ->
+  undecodable (b_class b) = false /\
+  (cfg_strict cfg = true -> has_strict_errors (b_class b) = false).
+Proof.
+  intros cfg sc c0 evs c sp r sent b Hsp Hr H34 H.
+  destruct (C19_no_rejected_body_accepted cfg sc c0 evs c sent b H) as [_ [_ Hx]]. exact Hx.
+Qed.
+Print Assumptions C19_strict_loose_cached.
 
 (* any other status, a transport error (timeout), an unreadable body: error *)
 Theorem C19_other_is_error : forall cfg sc c0 evs c sp sent o,
@@ -207,7 +209,8 @@ Print Assumptions C19_three_steps_finish.
 
 (* The executable clauses the correspondence check evaluates on the
    IMPLEMENTATION's outcomes (Model/Webhook.v call_clauses: non-200-accepted,
-   wrong-retry-delay, error-accepted, 304-body-not-for-sent-etag, the decoding
+   wrong-retry-delay, error-accepted, 304-body-not-for-sent-etag,
+   undecodable-body-accepted, the decoding
    clause, strict-invalid-accepted-on-replay, plain-sent-if-none-match) hold of every finished call of every
    schedule of the model. *)
 Theorem C19_clauses_hold : forall cfg sc c0 evs c sp sent o,
@@ -273,6 +276,17 @@ Proof. vm_compute. repeat split; reflexivity. Qed.
 
 (* strict mode stores a body with an unknown field under its ETag and rejects
    it; a later 304 re-serves that body and is rejected again (loose: accepted) *)
+(* a document followed by a second one is stored under its ETag before it is
+   decoded, is an error in loose mode too, and stays one when 304 replays it *)
+Example C19_trailing_data_replayed :
+  let b2 := mkBody 8 BTwoDocuments in
+  let sc := [mkCall 7 (Reply (mkResp 200 "e8" RAAbsent b2 false)); mkCall 7 (Reply ex_r304)] in
+  let evs := [Step 0; Step 0; Step 0; Step 1; Step 1; Step 1] in
+  let st := run_schedule (mkCfg true false) sc (init empty_cache) evs in
+  st_calls st 0%Z = PDone "" Err /\ st_calls st 1%Z = PDone "e8" Err /\
+  decode (mkCfg true false) (mkBody 9 BValidTrailingSpace) = OkBody (mkBody 9 BValidTrailingSpace).
+Proof. vm_compute. repeat split; reflexivity. Qed.
+
 Example C19_strict_cached_both_412 :
   let bb := mkBody 6 BUnknownAndDuplicate in
   let r412 := mkResp 412 "" RAAbsent (mkBody 0 BInvalidJson) false in
